@@ -29,12 +29,20 @@ func (ex *Exec) declare(id *ast.Ident, t types.Type, v Value) {
 	if v == nil {
 		v = ex.zeroValue(t)
 	}
+	v = ex.coerce(v, t)
 	if a, ok := v.(AggV); ok && a.Sym != nil {
 		obj.Sym = a.Sym
 	} else {
 		ex.storeInit(obj, t, v)
 	}
-	ex.frame().vars[o] = obj
+	fm := ex.frame()
+	fm.vars[o] = obj
+	if fm.byName == nil {
+		fm.byName = map[string]*Obj{}
+		fm.types = map[string]types.Type{}
+	}
+	fm.byName[id.Name] = obj
+	fm.types[id.Name] = t
 }
 
 func (ex *Exec) assignTo(lhs ast.Expr, v Value) {
@@ -124,6 +132,14 @@ func (ex *Exec) execStmt(s ast.Stmt) ctl {
 		} else {
 			for _, r := range s.Results {
 				vals = append(vals, ex.eval(r))
+			}
+		}
+		if fn := ex.frame().fn; fn != nil {
+			rts := resultTypes(fn)
+			for i := range vals {
+				if i < len(rts) {
+					vals[i] = ex.coerce(vals[i], rts[i])
+				}
 			}
 		}
 		ex.frame().results = vals
